@@ -384,7 +384,11 @@ class Builder:
 
     def horizon(self):
         fin = [d for d in self.deadlines.values() if d != math.inf]
-        return max([self.now] + fin) + 1.0
+        h = max([self.now] + fin) + 1.0
+        if getattr(self, "outlive", False) and any(d == math.inf for d in self.deadlines.values()):
+            # an entry with the infinite TTL is still there when 0xFFFFFF seconds (194 days) have gone by
+            h += FOREVER + 300.0
+        return h
 
 
 I1 = ("X", 1, 0, "v4")
@@ -486,6 +490,7 @@ def random_history(rng):
         pl = rng.choice(("new", "new", "same", "same", "same+1", "same+2", "d-eps", "d:before", "d:after", "d:after+1", "d+eps", "d-res"))
         if b.add(a, pl):
             seq.append((a["kind"], pl))
+    b.outlive = rng.random() < 0.15
     return b, tuple(seq)
 
 
